@@ -1,0 +1,12 @@
+//go:build verif
+
+package validation
+
+// VerifTables exports the pattern keys of the rule tables (verification builds only).
+func VerifTables() map[string][]string {
+	out := map[string][]string{}
+	for k := range checks {
+		out["validation.checks"] = append(out["validation.checks"], string(k))
+	}
+	return out
+}
